@@ -3,7 +3,14 @@ from checks import lintlib as L
 from vlib.core import run_lines
 
 MODULES = ["TLVerif.Props.C28"]
-THEOREMS = ["TLVerif.Props.C28." + t for t in []]
+THEOREMS = ["TLVerif.Props.C28." + t for t in [
+    "wire_sound",
+    "wire_sound_function",
+    "wire_sound_elems",
+    "linter_sound_fails",
+    "witnesses_accepted_not_compat",
+    "tag_change_breaks_wire",
+    "size_bit_breaks_wire"]]
 
 KNOWN_CLASSES = ("bare-ignored", "repeat-opaque", "box-usage-hidden", "tag-ignored", "size-bit", "constant-bit", "panic-fewer-args")
 
